@@ -18,6 +18,8 @@ pub enum CEv {
     SetSame,
     /// set(same kind, this value)
     SetValue(f32),
+    /// set(same kind, the value this many ulps away from the current one)
+    SetNear(i8),
     /// set(kind, value)
     SetKind(u8, f32),
     /// the followed command getter now returns this command / nothing
@@ -93,6 +95,10 @@ fn run_real(s: &Scenario, events: &[CEv], times: &[i64]) -> (Vec<Obs>, Vec<Optio
             }
             CEv::SetValue(v) => {
                 cur = Command::new(PositionDerivative::from(cur), *v);
+                pid.set(cur).expect("set is infallible");
+            }
+            CEv::SetNear(k) => {
+                cur = Command::new(PositionDerivative::from(cur), gen::near(f32::from(cur), *k as i32));
                 pid.set(cur).expect("set is infallible");
             }
             CEv::SetKind(k, v) => {
@@ -180,6 +186,7 @@ pub fn check(s: &Scenario) -> CheckResult {
         match ev {
             CEv::SetSame => {}
             CEv::SetValue(v) => set_cmd((cmd.0, *v), &mut cmd, &mut seg, &mut err, &mut samples_since_change),
+            CEv::SetNear(k) => set_cmd((cmd.0, gen::near(cmd.1, *k as i32)), &mut cmd, &mut seg, &mut err, &mut samples_since_change),
             CEv::SetKind(k, v) => set_cmd((*k % 3, *v), &mut cmd, &mut seg, &mut err, &mut samples_since_change),
             CEv::Follow(k, v) => followed = Some((*k % 3, *v)),
             CEv::FollowNone => followed = None,
@@ -270,7 +277,7 @@ pub fn check(s: &Scenario) -> CheckResult {
             }
         }
     }
-    let kinds: Vec<u8> = s.events.iter().map(|e| match e { CEv::P(..) => 0, CEv::A => 1, CEv::E(_) => 2, CEv::SetSame => 3, CEv::SetValue(_) => 4, CEv::SetKind(k, _) => 5 + k % 3, CEv::Follow(k, _) => 8 + k % 3, CEv::FollowNone => 11 }).collect();
+    let kinds: Vec<u8> = s.events.iter().map(|e| match e { CEv::P(..) => 0, CEv::A => 1, CEv::E(_) => 2, CEv::SetSame => 3, CEv::SetValue(_) => 4, CEv::SetNear(_) => 12, CEv::SetKind(k, _) => 5 + k % 3, CEv::Follow(k, _) => 8 + k % 3, CEv::FollowNone => 11 }).collect();
     let nontrivial = longest_integrating_seg >= 4 || change_then_three;
     Ok(CaseInfo::new(nontrivial, hash_of(&(kinds, s.cmd_kind % 3, s.follow, s.k.map(f32::to_bits))))
         .class_if(longest_integrating_seg >= 4, "velocity/acceleration segment >= 4 samples")
@@ -285,6 +292,7 @@ fn cev() -> BoxedStrategy<CEv> {
         1 => (0u8..=2).prop_map(CEv::E),
         1 => Just(CEv::SetSame),
         1 => gen::moderate().prop_map(CEv::SetValue),
+        1 => (-2i8..=2).prop_map(CEv::SetNear),
         1 => (0u8..3, gen::moderate()).prop_map(|(k, v)| CEv::SetKind(k, v)),
         1 => (0u8..3, gen::moderate()).prop_map(|(k, v)| CEv::Follow(k, v)),
         1 => Just(CEv::FollowNone),
